@@ -62,6 +62,8 @@ def check(run, project):
     L = ctx.layout(project)
     run.explanation = ("typestate fixpoint over the pump's CFG; every return / raise / warning site is classified in "
                        "every abstract state (look-ahead byte x depleted x last yield) that reaches it")
+    from .carriers import check_carriers
+    check_carriers(run, project, "E1", {"bytes_remaining", "command_code"})
     run.cover(cfg_nodes=len(F.cfg.nodes), node_states=sum(len(s) for s in F.states.values()))
     mode = "abort_on_error"
     if mode not in [a.arg for a in fn.args.args]:
